@@ -145,11 +145,25 @@ func runFields() {
 // zero syndromes (reference evaluation), equality with the reference parity.
 func encode(l *mc.Local, f field, enc *rs.ReedSolomonEncoder, data []int, r int) []int {
 	k := len(data)
-	word := make([]int, k+r)
+	// the word is a window of a larger array: the caller's elements behind it must stay untouched
+	const guard = -77
+	backing := make([]int, k+r+8)
+	for i := range backing {
+		backing[i] = guard
+	}
+	word := backing[:k+r]
 	copy(word, data)
 	for i := k; i < k+r; i++ {
 		word[i] = 0x7 // stale content must be overwritten
 	}
+	defer func() {
+		for i := k + r; i < len(backing); i++ {
+			if backing[i] != guard {
+				chk.Violation("C04/rs/encode/writes-behind-word/"+f.name, fmt.Sprintf("Encode wrote behind the word it was given (offset +%d)", i-k-r), rsCase{f.name, k, r, data, nil, nil})
+				return
+			}
+		}
+	}()
 	var err error
 	pm, site := mc.Guard(func() { err = enc.Encode(word, r) })
 	l.Count("evaluations", 1)
@@ -196,7 +210,21 @@ func oneDecode(l *mc.Local, f field, data []int, r int, pos, mag []int) {
 
 func decodeWord(l *mc.Local, f field, word []int, k, r int, pos, mag []int) {
 	l.Beat("")
-	rcv := append([]int{}, word...)
+	const guard = -77
+	backing := make([]int, len(word)+8)
+	for i := range backing {
+		backing[i] = guard
+	}
+	rcv := backing[:len(word)]
+	copy(rcv, word)
+	defer func() {
+		for i := len(word); i < len(backing); i++ {
+			if backing[i] != guard {
+				chk.Violation("C04/rs/decode/writes-behind-word/"+f.name, "Decode wrote behind the word it was given", rsCase{f.name, k, r, word[:k], pos, mag})
+				return
+			}
+		}
+	}()
 	for i, p := range pos {
 		rcv[p] ^= mag[i]
 	}
